@@ -4,7 +4,7 @@ from concurrent.futures import ThreadPoolExecutor
 from .. import common, gen, cli, modelio, pipefam, oracle, cachefam
 
 RULE = ("each generated annotation pair is renamed by injective maps drawn from pools (numeric-looking '1','2','10','007','7','1e3','1E3','0x1A',"
-        "'-5','1.0'; names differing only in case; non-ASCII letters; blanks, punctuation, quotes, '#', boolean-looking 'True'/'false'; prefixes "
+        "'-5','1.0'; names differing only in case; non-ASCII letters; long names (17-70 characters, UTF-8 length up to 3x the character count, pairs differing only in the last character); blanks, punctuation, quotes, '#', boolean-looking 'True'/'false'; prefixes "
         "of one another) applied to chromosomes, genes, orders and superfamilies separately and together; the renamed pair is run through the real "
         "command line twice in one directory (first run: revision in memory; second run: intermediates re-read) and compared (a) first run vs "
         "re-run: exit status, every label, every value; (b) renamed vs un-renamed run cell by cell through the inverse renaming; (c) stored gene "
@@ -17,6 +17,14 @@ POOLS = {
     "nonascii": ["染色体1", "Chr_é", "Ωmega", "ñandú", "Ångström", "ß", "ΑΒΓ", "日本", "çà", "Ж1", "é", "É", "ü2", "Œ", "ǆ", "İ", "ı", "µ"],
     "punct": ["Chr 1", "chr-1", "chr.1", " lead", "trail ", "a,b", "a;b", 'q"uote', "#hash", "per%cent", "a'b", "x|y", "(p)", "[b]", "a=b", "a&b", "@at", "~t"],
     "wordy": ["True", "False", "true", "NAME", "NAx", "None1", "nul", "nanx", "Total", "S_Revision1", "O_Rev", "Total_TE", "infinity", "NaN1", "N/A1", "null0", "yes", "no"],
+    # lengths around and beyond 16 / 32 / 64 characters, byte length well above character length, names that agree on a long prefix
+    "long": ["Retrotransposon_Gypsy_element", "Retrotransposon_Gypsy_elemenu", "Transposable_Element_Family_Alpha", "Transposable_Element_Family_Alphb",
+             "L" * 70, "L" * 69 + "M", "Sixteen_chars_xy", "Sixteen_chars_xyz", "Seventeen_chars_é", "x" * 31 + "é", "x" * 32 + "é", "x" * 63 + "y",
+             "x" * 64 + "y", "Élément_transposable_à_ADN_ç", "a" * 15, "a" * 16, "a" * 17, "b" * 33],
+    # every name needs more UTF-8 bytes than the longest name of the pool has characters
+    "longutf": ["超長い転移因子の名前です超長い転移因子", "超長い転移因子の名前です超長い転移因孑", "ÀÉÎÕÜàéîõüÀÉÎÕÜàé", "ÀÉÎÕÜàéîõüÀÉÎÕÜàè", "Ω" * 17, "Ω" * 18,
+                "Ж" * 19, "Rétrotransposon_élément", "日本語の染色体の名前はこれです一二三", "Ångström_Ünïcödé_ñame", "éèêëēėęéèêëēėęéèê", "ßßßßßßßßßßßßßßßßß",
+                "Ελληνικό_όνομα_μεταθετού", "Название_транспозона_1", "Название_транспозона_2", "𝔘𝔫𝔦𝔠𝔬𝔡𝔢_𝔫𝔞𝔪𝔢_𝔬𝔲𝔱𝔰𝔦𝔡𝔢_𝔅𝔐𝔓", "İstanbul_ılık_ğöçşü", "ǅǈǋǲǅǈǋǲǅǈǋǲǅǈǋǲǅ"],
     "prefix": ["A", "AA", "A_", "A_1", "A1", "A10", "A.1", "A-", "A.", "A_GeneData", "A_TEData", "A.h5", "Aoverlap", "A_overlap", "AAA", "A__", "A1_", "A_10"],
 }
 # characters that cannot be part of a file name component: chromosome ids are embedded in file names
@@ -33,7 +41,7 @@ def make_maps(r, case, pool_name, which):
         if cat not in which:
             maps[cat] = {n: n for n in names}
             continue
-        cand = [p for p in pool if cat != "chrom" or not (set(p) & UNSAFE_FOR_CHROM)]
+        cand = [p for p in pool if cat != "chrom" or (not (set(p) & UNSAFE_FOR_CHROM) and len(p.encode()) <= 80)]
         r.shuffle(cand)
         m = {}
         for i, n in enumerate(names):
@@ -142,7 +150,9 @@ def run(chk):
     combos = [("numeric", ("chrom",)), ("numeric", ("gene",)), ("numeric", ("order", "superfam")), ("numeric", ("chrom", "gene", "order", "superfam")),
               ("case", ("chrom", "gene", "order", "superfam")), ("nonascii", ("chrom", "gene", "order", "superfam")),
               ("punct", ("gene", "order", "superfam")), ("punct", ("chrom",)), ("wordy", ("chrom", "gene", "order", "superfam")),
-              ("prefix", ("chrom", "gene")), ("prefix", ("order", "superfam"))]
+              ("prefix", ("chrom", "gene")), ("prefix", ("order", "superfam")),
+              ("long", ("chrom", "gene", "order", "superfam")), ("longutf", ("order", "superfam")),
+              ("longutf", ("chrom", "gene", "order", "superfam"))]
     cases = []
     for ci in range(ncases):
         case = gen.gen_pair(r, max_chrom=3, max_genes=3, max_tes=10, min_chrom=2)
